@@ -86,7 +86,15 @@ def parseArg (j : Json) : Except String QExpr :=
       let rows ← items.toList.mapM (fun r => match r with
         | .arr a => a.toList.mapM parseAtom
         | _ => .error "row is not an array")
-      pure (.val (.rows k rows))
+      -- "rk": per row "is a list" (absent: every row is a tuple)
+      match j.getObjVal? "rk" with
+      | .ok (.arr ks) =>
+        let flags ← ks.toList.mapM (fun b => match b with
+          | .bool x => pure x
+          | _ => .error "row kind is not a bool")
+        if flags.length != rows.length then throw "rk length" else
+        pure (.val (.nest k (flags.zip rows)))
+      | _ => pure (.val (.rows k rows))
     | _ =>
     match j.getObjVal? "seq" with
     | .ok (.str kind) => do
@@ -278,6 +286,9 @@ def canonArg : PyVal → Json
   | .seq k items => Json.mkObj [("seq", .str (kindName k)), ("items", Json.arr (items.map canonAtom).toArray)]
   | .rows k items => Json.mkObj [("seq", .str (kindName k)),
       ("items", Json.arr (items.map (fun r => Json.mkObj [("row", Json.arr (r.map canonAtom).toArray)])).toArray)]
+  | .nest k items => Json.mkObj [("seq", .str (kindName k)),
+      ("items", Json.arr (items.map (fun r =>
+        Json.mkObj [(if r.1 then "lrow" else "row", Json.arr (r.2.map canonAtom).toArray)])).toArray)]
   | .fv n f => Json.mkObj [("fv", Json.arr #[ratJ n, ratJ f])]
   | .qty q => Json.mkObj [("qty", Json.arr #[symJ q.cat, symJ q.unit])]
 
@@ -432,6 +443,26 @@ def defcatJ : Except ErrKind (Option Sym) → Json
   | .ok none => Json.mkObj [("ok", .null)]
   | .error e => errJ e
 
+def parseMut (j : Json) : Except String Mut := do
+  let m ← getStr j "m"
+  match m with
+  | "append" => pure (.append (← parseAtom (optField j "x")))
+  | "extend" =>
+    let xs ← getArr j "xs"
+    pure (.extend (← xs.toList.mapM parseAtom))
+  | "set" =>
+    let i ← getStr j "i"
+    match i.toNat? with
+    | some n => pure (.setItem n (← parseAtom (optField j "x")))
+    | none => throw "bad index"
+  | "scale" => pure (.scale (← getRat j "k"))
+  | _ => throw s!"unknown mutation {m}"
+
+def resJ (db : Db) : Option (Except ErrKind Obj) → Except String Json
+  | some (.ok o) => pure (Json.mkObj [("ok", canonObj db o)])
+  | some (.error e) => pure (errJ e)
+  | none => throw "step outside the model (mutation of this container / CreateWithQuantity without quantity)"
+
 /-- a history on a private database, one answer per step: the state is the registry (`Ctor.hstep`:
 registrations through `Reg.step`; questions and groups of forms are answered from `dbOf` of the
 registry as it is at that step) -/
@@ -448,6 +479,17 @@ def runHist : Barril.Reg.Registry → List Json → Except String (List Json)
     | .ok (.str "forms") =>
       let out ← formsJ (dbOf lg r) j
       pure (out :: (← runHist r js))
+    | .ok (.str "mut") =>
+      let f ← parseForm (optField j "form")
+      let ms ← (← getArr j "muts").toList.mapM parseMut
+      match (hstep lg r (.mut (callOf f) ms)).2 with
+      | .mut built after =>
+        let b ← resJ (dbOf lg r) built
+        let a ← match built with
+          | some (.ok _) => resJ (dbOf lg r) after
+          | _ => pure Json.null
+        pure (Json.mkObj [("built", b), ("after", a)] :: (← runHist r js))
+      | _ => throw "hstep"
     | .ok _ => throw "unknown question"
     | .error _ =>
       let op ← parseRegOp j
